@@ -79,6 +79,14 @@ func Run(c *vh.Ctx) {
 			var pc PosCase
 			json.Unmarshal(c.ReplayRaw, &pc)
 			runPos(c, m, pc.Tag, &pc)
+		case "decl":
+			var dc DeclCase
+			json.Unmarshal(c.ReplayRaw, &dc)
+			runDecl(c, m, dc.Shape.Tag, &dc)
+		case "declmini":
+			var mc MiniCase
+			json.Unmarshal(c.ReplayRaw, &mc)
+			runDeclMini(c, m, mc.Tag, &mc)
 		case "hist":
 			var h HistCase
 			json.Unmarshal(c.ReplayRaw, &h)
@@ -93,6 +101,14 @@ func Run(c *vh.Ctx) {
 				histInst(c, m, h.Tag, h.Stride, h.Off, h.Group)
 			}
 		}
+		if m != nil {
+			c.Res.ModelLines = m.Lines
+		}
+		return
+	}
+	if os.Getenv("C07_ONLY") == "decl" { // debugging aid: the declaration-spelling stream alone
+		runDecl(c, m, "L"+string(rune('a'+c.Rand.Intn(26))), nil)
+		runDeclMini(c, m, "M"+string(rune('a'+c.Rand.Intn(26))), nil)
 		if m != nil {
 			c.Res.ModelLines = m.Lines
 		}
@@ -125,6 +141,10 @@ func Run(c *vh.Ctx) {
 	histInst(c, m, "V"+string(rune('a'+c.Rand.Intn(26))), stride, c.Rand.Intn(stride), "")
 	// enforcement does not depend on the position of the offending item among several (parameters, slots, accesses)
 	runPos(c, m, "P"+string(rune('a'+c.Rand.Intn(26))), nil)
+	// the modifier a member carries does not depend on how its declaration is spelled (keyword order, repeated
+	// and implied keywords, promoted constructor parameters, members that come from a trait)
+	runDecl(c, m, "L"+string(rune('a'+c.Rand.Intn(26))), nil)
+	runDeclMini(c, m, "M"+string(rune('a'+c.Rand.Intn(26))), nil) // the same for anonymous classes and enums
 	c.Res.Exhaustive = true
 	c.Res.ExhaustiveWhat = "per hierarchy shape: every (access path variant x modifier x receiver x object class x site) cell of the visibility matrix; every (boundary x declared type x value kind) cell of the type matrix (10 x 15 x 11); every (base x interface x middle-class subset x own subset) instantiation cell (4 x 3 x 5 x 16) plus the abstract/interface/static special cases; hierarchy shapes and names are seeded"
 	if m != nil {
